@@ -3,6 +3,7 @@
    permutation family (>= 100 sequences) are run; oracle: the map name -> gapped row is identical. */
 #include "vh.h"
 #include "kx.h"
+#include "shapes.h"
 #include "sched_inputs.h"
 
 const char* vh_property = "C03";
@@ -13,7 +14,8 @@ static const struct fam FT[] = {{"ACG", 2, 6, 0, 4}, {"LKW", 2, 5, 1, 3}, {"AC",
 static const int DT[] = {KALIGN_TYPE_UNDEFINED, KALIGN_TYPE_DNA, KALIGN_TYPE_DNA_INTERNAL, KALIGN_TYPE_RNA};
 static const int PT[] = {KALIGN_TYPE_UNDEFINED, KALIGN_TYPE_PROTEIN, KALIGN_TYPE_PROTEIN_DIVERGENT};
 #define NNAMING 4       /* s0,s1.. | z0,y1.. (reverse lexicographic) | "Q7Z5 isoform <j>" (blank, common first word) | n, nn, nnn (each a prefix of the next) */
-#define NBIG 4  /* big sets: sched inputs 11 (104 dna), 12 (130 protein), each with two namings */
+#define NTIE3 12 /* members of the 1024-prefix tie family (shapes.h): every pair of sequences ties in the guide-tree distance */
+#define NBIG (4 + NTIE3)  /* big sets: sched inputs 11 (104 dna), 12 (130 protein), each with two namings; then the tie sets */
 
 static const struct fam* fams(int tier, int* n)
 {
@@ -77,6 +79,10 @@ static void decode(uint64_t id, int tier, struct ocase* c)
         c->big = (int)(id / BIGSLICES);
         c->slice = (int)(id % BIGSLICES);
         c->type = KALIGN_TYPE_UNDEFINED;
+        if(c->big >= 4){
+                sh_tie_build(((c->big - 4) * 61) % SH_NTIE, &c->in);
+                return;
+        }
         sinput_build(sinput_get(11 + c->big / 2), &c->in);
         if(c->big & 1){
                 /* second naming: lexicographic order is the reverse of the input order */
